@@ -42,7 +42,7 @@ def main(ck, args):
                     got = {}
                     for i in idxs:
                         cmd = [b.worker, "-prop", prop, "-tier", "quick", "-seed", str(args.seed), "-from", str(i), "-to", str(i + 1), "-hashes", "-sites", b.sites]
-                        env = dict(ck.ENV, GOMAXPROCS=procs, VERIF_GOMAXPROCS="1", GORACE=ck.RACE_OPTS)
+                        env = dict(ck.ENV, GOMAXPROCS=procs, VERIF_GOMAXPROCS="1", GORACE=ck.RACE_OPTS + " log_path=%s/race" % b.out)
                         if prop == "C10":
                             cmd = ["bash", "-c", "ulimit -v 3145728; exec \"$@\"", "x"] + cmd
                         p = subprocess.run(cmd, env=env, stdout=subprocess.PIPE, stderr=subprocess.DEVNULL, text=True, timeout=600)
@@ -66,7 +66,7 @@ def main(ck, args):
                     cmd = ["bash", "-c", "ulimit -v 3145728; exec \"$@\"", "x"] + cmd
                 bulk = {}
                 for procs in ("1", "16"):
-                    env = dict(ck.ENV, GOMAXPROCS=procs, VERIF_GOMAXPROCS="1", GORACE=ck.RACE_OPTS)
+                    env = dict(ck.ENV, GOMAXPROCS=procs, VERIF_GOMAXPROCS="1", GORACE=ck.RACE_OPTS + " log_path=%s/race" % b.out)
                     p = subprocess.run(cmd, env=env, stdout=subprocess.PIPE, stderr=subprocess.DEVNULL, text=True, timeout=1800)
                     got = {}
                     for line in p.stdout.splitlines():
